@@ -102,7 +102,7 @@ theorem rel2_map_eq {α β γ : Type} {R : α → β → Prop} (f : α → γ) (
 
 section order
 variable (x : Ext) (ev : Event) (rules : List S.SRule) (e : Engine) (hw : WfEngine e)
-  (hrel : Rel2 (RuleRelFull x) rules e.rules)
+  (hrel : Rel2 (RuleRelFull x ev) rules e.rules)
 include hw hrel
 
 theorem rules_names_nodup : (rules.map (·.name)).Nodup := by
@@ -155,7 +155,7 @@ theorem scanOrder_eq :
       CS ev rules e := by
   have hnd : ((rules.filter (fun r => (r.rtype == RType.detection || r.rtype == RType.filter) && S.admits r.matchOn ev.source ev.id)).map K).Nodup := by
     have h1 : ((rules.filter (fun r => (r.rtype == RType.detection || r.rtype == RType.filter) && S.admits r.matchOn ev.source ev.id)).map (·.name)).Nodup :=
-      ((rules_names_nodup x rules e hw hrel).sublist ((List.filter_sublist).map _))
+      ((rules_names_nodup x ev rules e hw hrel).sublist ((List.filter_sublist).map _))
     have h2 : ((rules.filter (fun r => (r.rtype == RType.detection || r.rtype == RType.filter) && S.admits r.matchOn ev.source ev.id)).map K).map Prod.snd =
         (rules.filter (fun r => (r.rtype == RType.detection || r.rtype == RType.filter) && S.admits r.matchOn ev.source ev.id)).map (·.name) := by
       rw [List.map_map]; rfl
@@ -174,7 +174,7 @@ end order
 
 section named
 variable (x : Ext) (ev : Event) (hev : EventWf ev) (rules : List S.SRule) (e : Engine) (hw : WfEngine e)
-  (hrel : Rel2 (RuleRelFull x) rules e.rules)
+  (hrel : Rel2 (RuleRelFull x ev) rules e.rules)
 
 def isBadS (n : Str) : Bool := (S.verdicts x ev rules).lookup n == Option.some S.Res.err
 def badS (r : S.SRule) : Bool :=
@@ -200,7 +200,7 @@ theorem badS_iff (i : Nat) (hi : i < rules.length) :
   have hs : rules[i]? = some rules[i] := by simp
   have hc : e.rules[i]? = some e.rules[i] := by simp
   have hr := Rel2.get hrel i _ _ hs hc
-  obtain ⟨l, hl, hch⟩ := closures_spec x rules e hw hrel i _ hc
+  obtain ⟨l, hl, hch⟩ := closures_spec x ev rules e hw hrel i _ hc
   simp only [badS, isBadS, Bool.or_eq_true, List.any_eq_true, hr.name, hl, Option.getD_some]
   constructor
   · rintro (h | ⟨n, hn, hb⟩)
@@ -301,7 +301,7 @@ theorem named_refines (sr : Option ScanResult) (err : Option (Str × EvalErr)) (
         rw [isBadS, hra.name] at hbb
         exact absurd ((bad_iff x ev hev rules e hw hrel a _ hca).mp hbb) hva
     simp only [hb, Bool.false_eq_true, if_false, List.mem_filter]
-    obtain ⟨l, hl, hch⟩ := closures_spec x rules e hw hrel a _ hca
+    obtain ⟨l, hl, hch⟩ := closures_spec x ev rules e hw hrel a _ hca
     rw [hra.name, hl]
     refine ⟨(hch nm).mpr ⟨y, hyd, r, hr, hrn⟩, ?_⟩
     rw [isBadS, ← hrn]
